@@ -429,6 +429,22 @@ def fam_nc(tier, seed):
             afs.append(uint_field("x", [(0, 7), (16, 23)], array=arr(2, 8)))                   # u16 native elements
         afs = [f for f in afs if _array_fits(f, base)]
         cases += emit("na%d" % base, base, afs)
+    # twins inside one struct (and therefore one macro process): identical range lists / ranges that differ in exactly one
+    # other attribute, declared next to each other in both orders -- state carried from one field (or one invocation) to
+    # the next shows up as a disagreement with the reference register
+    for base in (32, 64, 128, 24):
+        tw = [
+            uint_field("x", [(0, 0), (4, 4)], array=arr(2, 8)), uint_field("x", [(0, 0), (4, 4)], array=arr(2, 1)),
+            uint_field("x", [(0, 0), (4, 4)], array=arr(3, 2, syntax=":")), uint_field("x", [(0, 0), (4, 4)]),
+            uint_field("x", [(4, 4), (0, 0)]), uint_field("x", [(4, 4), (0, 0)], array=arr(2, 8)),
+            uint_field("x", [(8, 11)], array=arr(2, 4)), uint_field("x", [(8, 11)], array=arr(2, 6)), uint_field("x", [(8, 11)], array=arr(2, None, 4)), uint_field("x", [(8, 11)]),
+            uint_field("x", [(8, 11)], array=arr(3, 4)), uint_field("x", [(8, 11)], access="r"), uint_field("x", [(8, 11)], access="w"),
+            sint_field("x", [(8, 15)], array=arr(2, 8)), uint_field("x", [(8, 15)], array=arr(2, 8)), sint_field("x", [(8, 15)]), uint_field("x", [(8, 15)]),
+            bool_field("x", 3, array=arr(4, 2)), bool_field("x", 3, array=arr(4, 1)), bool_field("x", 3), uint_field("x", [(3, 3)]),
+        ]
+        tw = [f for f in tw if (f["array"] is None and max(h for _, h in f["ranges"]) < base) or (f["array"] is not None and _array_fits(f, base))]
+        cases += emit("nt%d" % base, base, [dict(f) for f in tw], per=32)
+        cases += emit("nu%d" % base, base, [dict(f) for f in reversed(tw)], per=32)
     # thorough: all permutations of up to 4 ranges over fixed bit sets
     if tier == "thorough":
         for base in (16, 32, 24, 128):
